@@ -417,6 +417,14 @@ func cmdRun(id, tier string, replayIdx int, replayPart string, verbose bool) int
 	os.MkdirAll(filepath.Join(root, "evidence"), 0o755)
 	os.MkdirAll(filepath.Join(root, "replays"), 0o755)
 
+	if replayIdx < 0 {
+		if old, _ := filepath.Glob(filepath.Join(root, "replays", id+"-*.json")); len(old) > 0 {
+			for _, f := range old {
+				os.Remove(f)
+			}
+		}
+	}
+
 	// build
 	bins := map[string]string{}
 	for _, p := range pr.Parts {
